@@ -99,6 +99,30 @@ func Run(k int) int {
 }
 ''',
     },
+    'files': {
+        # one package, three files (presented to the compiler in file-name order):
+        # variables initialise in dependency order, then declaration order across
+        # files; init functions run in file order, several per file in source order
+        'p/z.go': 'package p\n\n' + HDR + '''
+var Z1 = A2 + 1 // depends on a variable of a.go that depends on m.go
+var Z2 = nd()
+
+func init() { trace(31); Log = Log*10 + 3 }
+''',
+        'p/a.go': 'package p\n\nvar Log int\n\nvar A1 = nd()\nvar A2 = M1() * 2\n\nfunc init() { trace(11); Log = Log*10 + 1 }\nfunc init() { trace(12); Log = Log*10 + 1 }\n',
+        'p/m.go': 'package p\n\nvar M0 = helper() + Z2 // through a function body, to a later file\n\nfunc M1() int { return M0 + A1 }\nfunc helper() int { return hidden * 3 }\n\nvar hidden = nd() & 15\n\nfunc init() { trace(21); Log = Log*10 + 2 }\n',
+        'main.go': 'package MODNAME\n\nimport "MOD/p"\n\n' + HDR + '''
+func Run(k int) int {
+	trace(p.A1)
+	trace(p.A2)
+	trace(p.M0)
+	trace(p.Z1)
+	trace(p.Z2)
+	trace(p.Log)
+	return p.Z1 + k
+}
+''',
+    },
     'funcinit': {
         'a/a.go': 'package a\n\n' + HDR + '''
 type T struct{ A, B int }
